@@ -117,6 +117,7 @@ def main(argv=None):
         return 0
 
     t0 = time.time()
+    os.environ['VERIF_RUN_ID'] = '%d_%d' % (os.getpid(), int(t0))
     obs = pm.obligations(a.tier)
     if a.only:
         keep = set(a.only.split(','))
